@@ -253,6 +253,49 @@ def eval_case(case):
         finally:
             os.unlink(path)
         return mkres(case, nt=True, classes=['cli', 'pass' if not want else 'fail'], fails=fails)
+    if k == 'cli-multi':
+        # several peers judged against one policy in one invocation: every target keeps its own verdict and errors
+        pol, peers = case['pol'], case['peers']
+        refs = [ref_errors(pol, peer) for peer in peers]
+        path = drive.tmpfile(policy_text(pol))
+        tf = drive.tmpfile(''.join('s%d\n' % i for i in range(len(peers))))
+        try:
+            for js in (False, True):
+                net = fakenet.FakeNet()
+                for i, peer in enumerate(peers):
+                    net.add('s%d' % i, 22, fakenet.Server({'banner': peer.get('banner') or 'SSH-2.0-OpenSSH_9.0', 'kex': peer['kex'], 'key': peer['key'], 'enc': peer['enc'], 'mac': peer['mac'], 'comp': peer.get('comp', ['none'])}))
+                r = drive.run_cli(['-n', '--skip-rate-test', '--threads', str(case.get('threads', 1)), '-P', path, '-T', tf] + (['-j'] if js else []), net)
+                if r.exc:
+                    fails.append([drive.crash_sig(r) + '-policy-audit', r.brief()])
+                    continue
+                per = {}
+                if js:
+                    for doc in json.loads(r.out):
+                        per[str(doc.get('host'))] = (doc.get('passed'), {e['mismatched_field'] for e in doc.get('errors', [])})
+                else:
+                    for blk in report.split_blocks(r.out):
+                        pr = report.policy_result(blk)
+                        if pr['host']:
+                            per[pr['host'].split(':')[0]] = (pr['passed'], set(pr['error_fields']))
+                worst = 0
+                for i, (want, open_) in enumerate(refs):
+                    got = per.get('s%d' % i)
+                    if got is None:
+                        fails.append(['cli-multi-target-without-verdict', '%s: no result for target %d of %d: %s' % ('json' if js else 'text', i + 1, len(peers), r.brief())])
+                        continue
+                    passed, fields = got
+                    if passed != (len(fields) == 0):
+                        fails.append(['cli-multi-passed-iff-no-errors', '%s: target %d of %d: passed=%r with errors %r' % ('json' if js else 'text', i + 1, len(peers), passed, sorted(fields))])
+                    if (fields - open_) != (want - open_) or not (fields <= want | open_):
+                        fails.append(['cli-multi-policy-error-fields', '%s: target %d of %d (%d thread(s)): %r vs reference %r' % ('json' if js else 'text', i + 1, len(peers), case.get('threads', 1), sorted(fields), sorted(want))])
+                    if want - open_:
+                        worst = 3
+                if not any(o for _, o in refs) and r.code != worst:
+                    fails.append(['cli-multi-exit-status', 'exit %d, reference %d' % (r.code, worst)])
+        finally:
+            os.unlink(path)
+            os.unlink(tf)
+        return mkres(case, nt=True, classes=['cli-multi', 'n:%d' % len(peers), 'threads:%d' % case.get('threads', 1), 'verdicts:' + ''.join('F' if w else 'P' for w, _ in refs)], fails=fails[:6])
     raise ValueError(k)
 
 
@@ -417,6 +460,22 @@ def run(ctx):
             pol['kex'] = [C_MARK if x == S_MARK else x for x in pol['kex']]
             peer = dict(c['peer'], kex=[C_MARK if x == S_MARK else x for x in c['peer']['kex']])
             cli.append({'kind': 'cli', 'pol': pol, 'peer': peer})
+    # several peers against one policy in one -T run (each target's verdict and error list are its own)
+    by_pol = {}
+    for c in sample[:4000]:
+        by_pol.setdefault(json.dumps(c['pol'], sort_keys=True), []).append(c['peer'])
+    nm = 0
+    for key in sorted(by_pol):
+        peers = by_pol[key]
+        if len(peers) < 3 or nm >= (60 if ctx.quick else 600):
+            continue
+        pol = json.loads(key)
+        order = sorted(range(len(peers)), key=lambda i: (not ref_errors(pol, peers[i])[0], i))   # failing peers first
+        pick = [peers[i] for i in (order[:2] + order[-2:])]
+        if nm % 2:
+            pick = pick[::-1]
+        cli.append({'kind': 'cli-multi', 'pol': pol, 'peers': pick, 'threads': 1 + nm % 3 % 2})
+        nm += 1
     ctx.map(cli)
     ctx.note(universe=len(uni), random_instances=n, cli_cases=len(cli), explanation='exhaustive flag refers to the small universe (all lists up to length 3 over 3 names incl. the strict marker, optional host-key lists up to length 2, size maps over 6 boundary values squared, both flags)')
     return ctx.finish('exploration', '(policy text, peer) pairs: exhaustive small universe per field, Hypothesis instances with all fields at once derived from the peer by random edits, metamorphic shrink/grow variants, CLI sample (text+JSON, server and client policies); non-trivial = exactly one field differs, or a flag is set, or an optional host-key list is present',
